@@ -42,6 +42,7 @@ def run(chk):
     negotiate(chk, 'negotiate', 330)
     callers_collection(chk)
     status_queries(chk)
+    status_after_session(chk)
     runtime_tables(chk)
 
 
@@ -231,6 +232,48 @@ def negotiate(chk, suite, limit, sets=None, behs=None):
       chk.sample('negotiate', {'allowed': [47, 757], 'server': ['proto', 47], 'conns': obs[0].get('conns')}, k=1)
     chk.assumptions += ['json.loads is library code: the model starts from the shape of the parsed status object; the harness generates the text',
                         'the clock (timeit.default_timer) is replaced by a deterministic monotone fake']
+
+
+def status_after_session(chk):
+    """A status query on an object that has been through a play session in which the server switched compression on: the query
+    is a new conversation - handshake and request go out in the plain frame format, the reply is understood, the connection is
+    closed and the exit callback runs."""
+    from minecraft.networking.connection import Connection
+    import builtins
+    for pv in (47, 340, 757):
+        ids = proto.Ids(pv)
+        for thr in (0, 64, 256):
+            first = [proto.frame(ids.set_compression, proto.varint(thr)), proto.frame(ids.login_success, ids.b_login_success(), thr),
+                     proto.frame(ids.play_disconnect, proto.string('{"text":"bye"}'), thr)]
+            status = {'version': {'name': 'x', 'protocol': pv}, 'players': {'online': 1}}
+            net = sim.Net([sim.Server([b''.join(first)], end='idle'), sim.Server([proto.frame(0, proto.string(json.dumps(status)))], end='idle')]).install()
+            got, exits, excs = [], [], []
+            rp = builtins.print
+            builtins.print = lambda *a, **k: None
+            try:
+                conn = Connection('example.org', 25570, username='u', allowed_versions=[pv], handle_exit=lambda: exits.append(1), handle_exception=lambda e, i: excs.append(e))
+                conn.connect()
+                net.run_threads(conn)
+                conn.status(handle_status=lambda d: got.append(d), handle_ping=False)
+                net.run_threads(conn)
+            except Exception as e:
+                excs.append(e)
+            finally:
+                builtins.print = rp
+                net.uninstall()
+            chk.count('status-after-session', [pv, thr], True)
+            what = None
+            try:
+                hs = parse_conn(None, b''.join(net.servers[1].sends))
+                if hs[:4] != [pv, 'example.org', 25570, 1] or hs[4] != ('request',):
+                    what = 'the status connection starts with %s' % (hs[:5],)
+                elif got != [status] or exits != [1, 1] or excs:
+                    what = 'status handler calls %s, exit callbacks %d (one per conversation), errors %s' % (got, len(exits), [exn_name(e) for e in excs])
+            except Exception as e:
+                what = 'the status connection does not open with a plain handshake and request (%s): %s' % (exn_name(e), b''.join(net.servers[1].sends)[:16].hex())
+            if what:
+                chk.violation('status-after-session', 'status-after-session:%d:%d' % (pv, thr), {'case': {'proto': pv, 'threshold_of_the_earlier_session': thr}, 'observed': what},
+                              'protocol %d, status() after a play session with compression threshold %d: %s' % (pv, thr, what))
 
 
 def callers_collection(chk):
